@@ -29,7 +29,9 @@ def gen_ops(rng, tids, lens, n_ops, exhaustive_alphabet=False):
         elif r < 0.8 and not single:
             ops.append(['stepidn', list(tids) if rng.random() < 0.7 else [tids[1], tids[0]], k])
         elif r < 0.9 and single:
-            ops.append(['setindex', rng.randint(-2, nmax + 2)])
+            ops.append(['setindex', rng.randint(-2, nmax + 2)] if rng.random() < 0.7 else ['setindexall', rng.randint(-2, nmax + 2)])
+        elif r < 0.9:
+            ops.append(['setindexall', rng.randint(-2, nmax + 2)])
         elif single:
             ops.append(['rewind'])
         else:
@@ -51,6 +53,8 @@ def op_text(op):
         return '(step ' + ' '.join(op[1]) + f' {op[2]})'
     if k == 'setindex':
         return f'(set-index {op[1]})'
+    if k == 'setindexall':
+        return f'(set-index/all {op[1]})'
     if k == 'rewind':
         return '(step (- INDEX))'
     raise ValueError(k)
@@ -60,11 +64,11 @@ class C02(framework.PropertyCheck):
     pid = 'C02'
     quick_cases = 400
     thorough_cases = 12000
-    rule = ('random op sequences (len<=12) over step / step n / step "tid" / step tid.. n / set-index / (step (- INDEX)) on 1-2 '
+    rule = ('random op sequences (len<=12) over step / step n / step "tid" / step tid.. n / set-index / set-index/all / (step (- INDEX)) on 1-2 '
             'generated traces (N<=9, different lengths), amounts in [-(N+2),N+2]; thorough adds all sequences of length<=3 over the op '
             'alphabet for N1,N2<=3; non-trivial = at least one in-range and one out-of-range request')
     assumptions = ['VCD files are read by the real reader; trace contents come from harness/gen_trace.simple_vcd',
-                   'set-index is exercised with a single trace only (it reads the unqualified INDEX)']
+                   'set-index is exercised with a single trace only (it reads the unqualified INDEX); set-index/all with one and two traces']
 
     def cases(self, rng, tier, n):
         for _ in range(n):
@@ -147,8 +151,10 @@ class C02(framework.PropertyCheck):
         for n_op, op in enumerate(case['ops']):
             kind = op[0]
             # expected effect
-            if kind in ('step', 'stepn', 'rewind', 'setindex'):
-                if kind == 'step':
+            if kind in ('step', 'stepn', 'rewind', 'setindex', 'setindexall'):
+                if kind == 'setindexall':
+                    amt = {t: op[1] - idx[t] for t in idx}      # every trace is asked to go to that index, each on its own
+                elif kind == 'step':
                     amt = {t: 1 for t in idx}
                 elif kind == 'stepn':
                     amt = {t: op[1] for t in idx}
